@@ -335,9 +335,26 @@ def build_shapes(root: str) -> dict:
                 rel = os.path.relpath(p, root)
                 for path, fn in functions_with_paths(ast.parse(open(p).read())):
                     sh = shapes_of(fn)
+                    table.setdefault("__functions__", []).append(f"{rel}::{path}")
                     if sh["cmp"] or sh["tests"] or sh["locals"]:
                         table[f"{rel}::{path}"] = sh
     return table
+
+
+def is_reference_function(rel: str, cls: str | None, name: str) -> bool:
+    """Does the reference tree have a function of this module / class / name?  (A helper that a refactoring introduced does
+    not: the decision tables inline it, since its body is part of the behaviour of whoever calls it.)"""
+    fs = load_shapes().get("__functions__")
+    if fs is None:
+        return True
+    key = f"{rel}::{cls + '.' if cls else ''}{name}"
+    global _fn_set
+    if _fn_set is None:
+        _fn_set = {k.split("@")[0] for k in fs}
+    return key in _fn_set
+
+
+_fn_set = None
 
 
 _table_cache = None
